@@ -106,7 +106,7 @@ def _c18_nontrivial(line, verdict):
     return "resource-limit" not in verdict
 
 PROPS["C18"] = {
-    "modules": ["IbexProofs.Props.C18", "IbexProofs.Props.C18resume", "IbexProofs.Props.C07"],
+    "modules": ["IbexProofs.Props.C18", "IbexProofs.Props.C18resume", "IbexProofs.Props.C18loop", "IbexProofs.Props.C07"],
     "harnesses": ["h_cov", "h_solver", "h_optim"],
     "workloads": lambda tier, seed: [
         # random objects of the 7 classes: save, bytes vs model, reload, cross-class loads, trailing bytes
